@@ -1,6 +1,7 @@
 package main
 
 import (
+	"go/types"
 	"strings"
 
 	"golang.org/x/tools/go/ssa"
@@ -32,28 +33,37 @@ func checkC06(c *Ctx) {
 		c.Unresolved("C06.1", "ExecuteEvent", "anchor missing")
 	} else {
 		names := emitNames(sites)
+		for _, e := range sites {
+			if p.ownedByAny(e.Fn, []string{"(*hs/protocol/consensus.Committer).commitInner"}) {
+				names = replaceName(names, shortName(declaredParent(e.Fn)), "(*hs/protocol/consensus.Committer).commitInner")
+			}
+		}
 		c.Check(setEq(names, []string{"(*hs/protocol/consensus.Committer).commitInner"}), "C06.1", "ExecuteEvent construction", p.InstrPos(sites[0].Instr),
 			"clientpb.ExecuteEvent is constructed only in Committer.commitInner", "ExecuteEvent constructed in: "+join(names))
 		fl := NewFlow(p, commitInner)
 		var commitBlk string
 		var commitEmit ssa.Instruction
+		ceSites := map[ssa.Instruction]Emit{}
 		for _, e := range p.constructSites(namedType(p, "", "CommitEvent")) {
-			if e.Fn == commitInner {
-				commitBlk = fl.K.Key(complitField(e.Alloc, "Block"))
-				commitEmit = e.Instr
-			}
+			ceSites[e.Instr] = e
 		}
+		for _, d := range deepInstrs(fl, func(in ssa.Instruction) bool { _, ok := ceSites[in]; return ok }, 0) {
+			commitBlk = d.Key(complitField(ceSites[d.Instr].Alloc, "Block"))
+			commitEmit = d.Instr
+		}
+		eeSites := map[ssa.Instruction]Emit{}
 		for _, e := range sites {
-			if e.Fn != commitInner {
-				continue
-			}
-			bk := fl.K.Key(complitField(e.Alloc, "Batch"))
-			facts := fl.At(e.Instr)
+			eeSites[e.Instr] = e
+		}
+		for _, d := range deepInstrs(fl, func(in ssa.Instruction) bool { _, ok := eeSites[in]; return ok }, 0) {
+			e := eeSites[d.Instr]
+			bk := d.Key(complitField(e.Alloc, "Batch"))
+			facts := d.Facts
 			okBatch := commitBlk != "" && bk == "(*hs.Block).Commands("+commitBlk+")"
 			okOrder := errNilOf(facts, func(k string) bool {
 				return strings.HasPrefix(k, kCommitInner) && strings.Contains(k, kBlockParent+commitBlk+")")
 			}) &&
-				commitEmit != nil && precedes(commitEmit, e.Instr)
+				commitEmit != nil && commitEmit.Parent() == e.Instr.Parent() && precedes(commitEmit, e.Instr)
 			c.Check(okBatch && okOrder, "C06.1", "commitInner: execute the committed block's commands, parent first", p.InstrPos(e.Instr),
 				"ExecuteEvent{Batch: block.Commands()} follows the CommitEvent of the same block and the successful recursive commit of its parent",
 				"ExecuteEvent batch is "+bk+" (commit event block "+commitBlk+"); ordered after parent/commit event: "+boolStr(okOrder))
@@ -67,9 +77,55 @@ func checkC06(c *Ctx) {
 	abort := p.Method("server", "ClientIO", "Abort")
 	cc := p.Method("server", "ClientIO", "completeCommand")
 	dup := p.Method("server", "ClientIO", "isDuplicate")
+	// the duplicate test by what it does, should it have been renamed or turned into a function: the boolean function of
+	// the package, called on Exec's behalf, that is true exactly for a known client with seq <= the recorded number
+	dupMap, dupCmd := "p0->"+kCIO+"lastExecutedSeqNum", "p1"
+	dupPolarity := func(fn *ssa.Function, m, cmd string) bool {
+		ways := trueEdges(NewFlow(p, fn))
+		ok := len(ways) > 0
+		for _, w := range ways {
+			lk := m + "[" + cmd + "->" + kCmd + "ClientID]"
+			if !(trueOf(w, is(lk+"#1")) && hasCmp(w, "<=", is(cmd+"->"+kCmd+"SequenceNumber"), is(lk+"#0"))) {
+				ok = false
+			}
+		}
+		return ok
+	}
+	if dup == nil && exec != nil {
+		for _, hf := range helperClosure(p, exec, 3) {
+			res := hf.Signature.Results()
+			if hf == exec || res.Len() != 1 || !types.Identical(res.At(0).Type(), types.Typ[types.Bool]) {
+				continue
+			}
+			for i := range hf.Params {
+				for j := range hf.Params {
+					m, cmd := "p"+itoa(i), "p"+itoa(j)
+					if i != j && dupPolarity(hf, m, cmd) {
+						// the map parameter must be the execution record at every call
+						okArg := true
+						for _, r := range callIndexOf(p).callers[hf] {
+							ak := NewKeyer(p, r.In).Key(r.Instr.(ssa.CallInstruction).Common().Args[i])
+							if !strings.HasSuffix(ak, kCIO+"lastExecutedSeqNum") {
+								okArg = false
+							}
+						}
+						if okArg {
+							dup, dupMap, dupCmd = hf, m, cmd
+						}
+					}
+				}
+			}
+		}
+	}
 	if exec == nil || abort == nil || cc == nil || dup == nil {
 		c.Unresolved("C06.2", "ClientIO", "anchor missing")
 		return
+	}
+	dupPrefix := shortName(dup) + "("
+	isDupOf := func(cmd string) func(string) bool {
+		return func(k string) bool {
+			return strings.HasPrefix(k, dupPrefix) && (strings.HasSuffix(k, ", "+cmd+")") || strings.Contains(k, ", "+cmd+")@"))
+		}
 	}
 	var stateUpdates []ssa.Instruction
 	n := 0
@@ -84,7 +140,7 @@ func checkC06(c *Ctx) {
 		fl := NewFlow(p, exec)
 		check := func(in ssa.Instruction, what, cmd string) {
 			facts := fl.At(in)
-			ok := falseOf(facts, is(kCIODup+cmd+")"))
+			ok := falseOf(facts, isDupOf(cmd)) || branchDominates(fl, in, func(f Fact) bool { return f.Op == "false" && isDupOf(cmd)(f.L) })
 			c.Check(ok, "C06.2", "Exec: "+what+" only for non-duplicates", p.InstrPos(in),
 				what+" is reached only under !isDuplicate(cmd)", what+" reachable for an already executed (client id, sequence number); facts: "+join(facts.Sorted()))
 			stateUpdates = append(stateUpdates, in)
@@ -112,7 +168,8 @@ func checkC06(c *Ctx) {
 					n++
 					// same command as the loop element: take it from the isDuplicate fact
 					facts := fl.At(in)
-					ok := falseOf(facts, func(k string) bool { return strings.HasPrefix(k, kCIODup) })
+					ok := falseOf(facts, func(k string) bool { return strings.HasPrefix(k, dupPrefix) }) ||
+						branchDominates(fl, in, func(f Fact) bool { return f.Op == "false" && strings.HasPrefix(f.L, dupPrefix) })
 					c.Check(ok && fl.K.Key(x.Val) == "(p0->"+kCIO+"cmdCount + c:1)", "C06.2", "Exec: the command counter only for non-duplicates", p.InstrPos(in),
 						"cmdCount++ only under !isDuplicate(cmd)", "counter update not gated; facts: "+join(facts.Sorted()))
 					stateUpdates = append(stateUpdates, in)
@@ -125,15 +182,7 @@ func checkC06(c *Ctx) {
 	}
 	// isDuplicate polarity
 	{
-		fd := NewFlow(p, dup)
-		ways := trueEdges(fd)
-		ok := len(ways) > 0
-		for _, w := range ways {
-			lk := "p0->" + kCIO + "lastExecutedSeqNum[p1->" + kCmd + "ClientID]"
-			if !(trueOf(w, is(lk+"#1")) && hasCmp(w, "<=", is("p1->"+kCmd+"SequenceNumber"), is(lk+"#0"))) {
-				ok = false
-			}
-		}
+		ok := dupPolarity(dup, dupMap, dupCmd)
 		c.Check(ok, "C06.2", "isDuplicate: known client and seq <= last executed", p.FuncPos(dup),
 			"true exactly when lastExecutedSeqNum has the client and cmd.SequenceNumber <= the recorded number", "unexpected comparison in ClientIO.isDuplicate")
 	}
